@@ -385,8 +385,8 @@ func gerRule(c *core.Ctx, rule string) {
 
 func init() {
 	register(&Property{
-		ID:    "C09",
-		Level: "other",
+		ID:          "C09",
+		Level:       "other",
 		Explanation: "Decides the structural necessary conditions of 'claim proofs inside a certificate verify against the L1 info root it names': C09-root — in getImportedBridgeExits, for both claim kinds (built only on the matching MainnetFlag branch), the proof to the L1 info root carries the same rootFromWhichToProve value that was passed to GetProofForGER for this claim's GER, the leaf index / inner fields come from that call's leaf (BlockHash ← PreviousBlockHash), the exit roots and exit proofs come from the same claim with each proof rooted at the matching exit root, and the rollup claim's leaf root is CalculateRoot(BridgeExit.Hash(), ProofLocalExitRoot, LeafIndex) of the same exit; C09-count — every store of L1InfoTreeLeafCount in the aggsender is r.Index+1 paired with r.Hash of the same root object, or a copy of both from one stored header, and the certificate copies it from the parameters whose root is the one proofs are built against; C09-leafhash — the syncer's and the Agglayer-side leaf hashes have the contract's layout keccak(ger‖parent hash‖BE64 timestamp) and agree under the field correspondence; C09-ger — the three GER computations are keccak(mainnet‖rollup) in that order, verifyClaimGERs rejects a mismatch and gates VerifyBuildParams. Not decided: that the proof obtained verifies (C08 decides orientation only) and that the finalized root is the latest. Added after round 7: C09-calldata (shared with C20-abi/C20-match), C09-immutable (synced claims are not modified, shared with C01).",
 		Rules: []Rule{
 			{ID: "C09-calldata", Floor: 24, Run: shared("C09-calldata", c20ABI, c20Match), Text: "(shared with C20-abi/C20-match) the proofs stored with a claim come from the call whose full global index equals the event's"},
